@@ -4,7 +4,8 @@ M-smt, proofs (C16). Core Lean only.
 
 * `prove t k` — `GetMerkleProof` on the L1 tree: the leaf or the insertion point the traversal ends at, then
   the siblings bottom-up with their side bit.
-* `V.verify` — `VerifyProof` as the code has it TODAY, transcribed at the level where its behaviour is decided:
+* `V.verify` — `VerifyProof` as the code had it BEFORE the repair (still run by the driver when `facts` finds the
+  old algorithm in store/smt.go), transcribed at the level where its behaviour is decided:
   the `key` objects with their cached `bitCount` / `length` fields (`totalBits`, `size`, `bitAt`, `addBit`,
   `greatestCommonPrefix`), the node cache of the throw-away tree (`NewSMT` puts the root and the two sentinels
   in it; `setNode` adds `proof[0]` and the reconstructed parents — never the siblings), and the re-traversal.
@@ -53,7 +54,14 @@ def prove (H4 : Bytes → Bytes → Bytes → Bytes → Bytes) (t : Trie) (k : K
     { key := encodeKey (descendTop k l r).1.key, value := (descendTop k l r).1.value H4, bitmask := 0 } ::
       (descendTop k l r).2.map (toPNode H4)
 
-/-! ## `VerifyProof` as it is -/
+/-! ## store wiring -/
+
+/-- the tree `Store.NewReadOnly(v)` serves proofs from: the tree committed for `v` when it opens the prefix that
+`Root()` / `Commit()` write the tree under, an empty tree (nothing was ever written there) otherwise -/
+def storeProofTree (writtenPrefix readPrefix : Bytes) (n : Nat) (committed : Trie) : Trie :=
+  if writtenPrefix == readPrefix then committed else empty n
+
+/-! ## `VerifyProof` before the repair (commit 9904ec4) -/
 namespace V
 
 /-- the Go `key` struct -/
